@@ -1319,6 +1319,19 @@ package zygo
 
 // curNode(p): the token the innermost Expression frame is working on (the representation of
 // the frame stack is in this one macro). Indexing and field access build their result from it.
+// the one-token lookahead of the precedence loop is in step with the cursor: whoever moves the cursor
+// reloads it (the go-style for jumps the cursor over its header and body, then advances)
+//@ macro inStep(p *Pratt) bool = p.Pos >= 0 && (p.Pos < len(p.Stream) ==> p.NextToken == p.Stream[p.Pos])
+//@ writers C06 Pratt | Pos, NextToken, Stream | NewPratt, (*Pratt).Advance, forOpMunchRightWithLabel
+//@ func (*Pratt).Advance
+//@ C06 modifies p.Pos, p.NextToken
+//@ C06 ensures lookahead-in-step: p.Pos == old(p.Pos) + 1 && (old(p.Pos) >= -1 ==> inStep(p)) && iff(r0 != nil, p.Pos >= len(p.Stream))
+//@ func NewPratt
+//@ C06 ensures lookahead-in-step: fresh(r0) && r0.Pos == 0 && same(r0.Stream, stream) && inStep(r0)
+//@ func forOpMunchRightWithLabel
+// (lowering the loop builds new parsers for the header clauses; that it leaves THIS parser's cursor
+// alone is what the write funnel above says: stated at the hand-over, after the last write)
+//@ C06 assert lookahead-in-step-after-the-loop @before call lowerGoFor[0]: old(pr.Pos >= 0) ==> inStep(pr) && pr.Pos == bodyPos + 1
 //@ macro curNode(p *Pratt) Sexp = p.CnodeStack[0]
 //@ func dotOpMunchLeft
 //@ C06 assert field-is-the-current-node @before call MakeList[0]: len(arg0) == 3 && arg0[1] == left && arg0[2] == curNode(pr)
